@@ -1218,7 +1218,14 @@ pub(super) fn check_retx(k: &mut Kernel) {
                     | TcpState::Closing
                     | TcpState::LastAck
             ) && tcb.snd_una != tcb.snd_nxt;
-            if handshake || data {
+            // FIN_WAIT2 of a socket the application has already closed
+            // (Linux `tcp_fin_timeout`): our FIN is acknowledged, nothing
+            // is owed to the peer, and all we wait for is its FIN. If
+            // that never comes — e.g. the peer's only RST was lost —
+            // the same counters abort the socket after
+            // `retx_threshold * (retx_max + 1)` passes and it is reaped.
+            let fin_wait2_orphan = st.fd_closed && tcb.state == TcpState::FinWait2;
+            if handshake || data || fin_wait2_orphan {
                 Some(fd)
             } else {
                 None
